@@ -437,6 +437,7 @@ func aeEnumerate(s *Shard, prop string, fn func(c *Case)) {
 							rc := cfg
 							rc.Reverse = true
 							fn(&Case{Prop: prop, Kind: "aspect", Req: aeRequest(rc)})
+							fn(&Case{Prop: prop, Kind: "aspect", Req: reverseChose(aeRequest(cfg))}) // choseToMake against the catalogue order
 						}
 						if g.n >= 2 && g.n <= 3 && g.m == 2 && si%4 == 0 {
 							for _, k := range []float64{0, 0.5, 1 - 1.0/(1<<53)} {
@@ -475,14 +476,97 @@ func aeLong(s *Shard, prop string, fn func(c *Case)) {
 	}
 }
 
+// aeWide: 14 and 23 criteria (ids c1..c23: "c10" sorts before "c2"), pairwise distinct weights declared in a scrambled
+// order, gain and cost alternating; the walk checks the criteria heaviest first, so the order of 14+ weights decides.
+func aeWide(s *Shard, prop string, fn func(c *Case)) {
+	for _, m := range []int{14, 23} {
+		cids := critIDs(m)
+		specs := append(incLists(cids), levelSpec{Fn: "idealAdditiveCoefficient", Coef: 0.25, Min: 0, Max: 1}, levelSpec{Fn: "idealMultipliedCoefficient", Coef: 0.5, Min: 0.25, Max: 1})
+		types := make([]string, m)
+		w := make([]float64, m)
+		for j := range types {
+			types[j] = []string{"gain", "cost"}[j%2]
+			w[j] = float64((j*5)%m+1) / 4
+		}
+		for pat := 0; pat < 6; pat++ {
+			for si, spec := range specs {
+				if !s.Take() {
+					continue
+				}
+				vals := make([][]float64, 3)
+				for i := range vals {
+					vals[i] = make([]float64, m)
+					for j := range vals[i] {
+						vals[i][j] = float64((i*(pat+1) + j*(pat%3+1)) % 3)
+					}
+				}
+				cfg := aeCfg{N: 3, Vals: vals, Types: types, Weights: w, Spec: spec, Extra: si%2 == 0 && spec.Fn != "thresholds"}
+				fn(&Case{Prop: prop, Kind: "aspect", Req: aeRequest(cfg)})
+			}
+		}
+	}
+}
+
+// aeDegenerate: one criterion has the same value for every known alternative (zero-width observed range), generated
+// series with decimal coefficients (level fractions 0.1, 0.2, 0.3 ... are not exact in binary): every level's threshold
+// on that criterion is the value itself, nobody is ever worse than it.
+func aeDegenerate(s *Shard, prop string, fn func(c *Case)) {
+	specs := []levelSpec{{Fn: "idealAdditiveCoefficient", Coef: 0.1, Min: 0, Max: 1}, {Fn: "idealAdditiveCoefficient", Coef: 0.2, Min: 0.1, Max: 0.9},
+		{Fn: "idealMultipliedCoefficient", Coef: 0.3, Min: 0.1, Max: 1}, {Fn: "idealMultipliedCoefficient", Coef: 0.7, Min: 0.05, Max: 0.95}}
+	for _, same := range []float64{3, 7, 7.3, 0.1, -2.2, 1e9 + 0.3} {
+		for _, spec := range specs {
+			for _, types := range [][]string{{"gain", "gain"}, {"gain", "cost"}, {"cost", "gain"}} {
+				Product([]int{3, 3, 3}, func(idx []int) {
+					if !s.Take() {
+						return
+					}
+					lv := []float64{0.5, 1.7, 2.9}
+					vals := [][]float64{{lv[idx[0]], same}, {lv[idx[1]], same}, {lv[idx[2]], same}}
+					for _, w := range [][]float64{{2, 1}, {1, 2}} {
+						cfg := aeCfg{N: 3, Vals: vals, Types: types, Weights: w, Spec: spec}
+						fn(&Case{Prop: prop, Kind: "aspect", Req: aeRequest(cfg)})
+					}
+				})
+			}
+		}
+	}
+}
+
 func c12Run(s *Shard) {
 	cur = s
 	majoritySample := 0
+	aeDegenerate(s, "C12", func(c *Case) {
+		s.Evals++
+		s.Begin(c)
+		s.Report(c12Check(c))
+	})
+	aeWide(s, "C12", func(c *Case) {
+		s.Evals++
+		s.Begin(c)
+		s.Report(c12Check(c))
+	})
 	seededOrderCases(s, "C12", "aspectEliminationHeuristic", func(c *Case) {
 		s.Evals += 4
 		s.Begin(c)
 		s.Report(c12Check(c))
 	})
+	// 13 and more alternatives
+	for _, n := range manySizes {
+		for pat := 0; pat < 4; pat++ {
+			for _, ths := range []L{{M{"c1": 0.5, "c2": 1.5}, M{"c1": 1.5, "c2": 0.5}}, {M{"c1": 0.5, "c2": 2.5}, M{"c1": 1.5, "c2": 1.5}, M{"c1": 2.5, "c2": 0.5}}} {
+				for _, w := range []M{{"c1": 2.0, "c2": 1.0}, {"c1": 1.0, "c2": 2.0}} {
+					if !s.Take() {
+						continue
+					}
+					mp := M{"function": "thresholds", "params": M{"thresholds": ths}, "weights": w, "randomSeed": 5}
+					c := &Case{Prop: "C12", Kind: "aspect", Req: manyAlternatives("aspectEliminationHeuristic", n, pat, mp)}
+					s.Evals++
+					s.Begin(c)
+					s.Report(c12Check(c))
+				}
+			}
+		}
+	}
 	aeLong(s, "C12", func(c *Case) {
 		s.Evals++
 		s.Begin(c)
